@@ -56,9 +56,29 @@ func (v V) Float64() float64 {
 	return f
 }
 
-// CidOf makes a CIDv1 (dag-cbor, sha2-256) out of a seed.
+// CidOf makes a CID out of a seed. One-byte seeds give CIDv1 (dag-cbor, sha2-256), the shape of a token CID;
+// for longer seeds the last byte selects the shape: any valid CID may be a proof, a cause or a link inside
+// arguments and metadata (raw / dag-json / dag-pb codecs, CIDv0, sha2-512, identity multihash).
 func CidOf(seed []byte) cid.Cid {
-	h, _ := mh.Sum(append([]byte("verif-link/"), seed...), mh.SHA2_256, -1)
+	data := append([]byte("verif-link/"), seed...)
+	h, _ := mh.Sum(data, mh.SHA2_256, -1)
+	if len(seed) < 2 {
+		return cid.NewCidV1(0x71, h)
+	}
+	switch seed[len(seed)-1] % 10 {
+	case 4:
+		return cid.NewCidV1(cid.Raw, h)
+	case 5:
+		return cid.NewCidV0(h)
+	case 6:
+		h512, _ := mh.Sum(data, mh.SHA2_512, -1)
+		return cid.NewCidV1(0x71, h512)
+	case 7:
+		id, _ := mh.Sum(seed, mh.IDENTITY, -1)
+		return cid.NewCidV1(cid.DagJSON, id)
+	case 8:
+		return cid.NewCidV1(cid.DagProtobuf, h)
+	}
 	return cid.NewCidV1(0x71, h)
 }
 
